@@ -37,7 +37,7 @@ func (m *Machine) unop(x *ssa.UnOp, v Value) Value {
 		case float64:
 			return -f
 		case *FSym:
-			return &FSym{L: m.ctx.Neg(f.L), Exact: f.Exact}
+			return m.fneg(f)
 		}
 	case token.XOR:
 		if k, ok := basicIntKind(x.Type()); ok {
